@@ -803,6 +803,28 @@ def library_fastpaths(fmts):
     return res, True
 
 
+def residue_pairs():
+    """(a, b) whose product a*b lies on the residues mod 255 where 8-bit multiply-and-round is sensitive to its
+       rounding constant (the pairs for which the constants 0x80 and 0x7f give different results, 126..130) and on
+       0 / 254, spread over small, medium and large products"""
+    def mul(a, b, h):
+        t = a * b + h
+        return (t + (t >> 8)) >> 8
+    sens = sorted(((a * b, a, b) for a in range(1, 256) for b in range(a, 256) if mul(a, b, 0x80) != mul(a, b, 0x7f)))
+    picked = [(a, b) for (_, a, b) in sens[::max(1, len(sens) // 24)]]
+    for res in (126, 127, 128, 129, 130, 0, 254):
+        cand = sorted(((a * b, a, b) for a in range(2, 256) for b in range(a, 256) if (a * b) % 255 == res))
+        for q in (0.05, 0.5, 0.95):
+            _, a, b = cand[int(q * (len(cand) - 1))]
+            picked.append((a, b))
+    seen, res_ = set(), []
+    for pr in picked:
+        if pr not in seen:
+            seen.add(pr)
+            res_.append(pr)
+    return res_
+
+
 def build_row(tc, fs, fm, fd, pres, mpres, rng, origin, chain=None, solid16=None, msolid16=None):
     """one composite request from a TLC-generated row of abstract pixel tuples; chain = the previous request
        whose destination this one continues on (same geometry; DST "=")"""
@@ -940,6 +962,35 @@ def gen_c01_cases(fmts, tcases, fastpaths, rng, tier):
             else:
                 pres = rng.choice([2, 4, 6])
             out.append(build_row(tc, fp["fs"], fp["fm"], fp["fd"], pres, 1 if fp["msolid"] else 0, rng, "fastpath"))
+    # ---- rounding residues of the 8-bit multiply-and-round primitive: products a*b on the residues mod 255 where
+    #      a rounding constant or carry that is off by one changes the result (and on 0 / 254), through the operators
+    #      and format combinations whose 8-bit routines multiply scalars (solid x a8 -> a8 IN / ADD, a8 IN a8, ...)
+    pairs = residue_pairs()
+    tuples = []
+    for (a, b) in pairs:
+        tuples.append({"s": [a] * 4, "m": [b] * 4, "d": [(a * 7 + b) % 256] * 4})      # source x mask
+        tuples.append({"s": [255] * 4, "m": [a] * 4, "d": [b] * 4})                   # mask x destination
+        tuples.append({"s": [a] * 4, "m": [255] * 4, "d": [b] * 4})                   # source x destination
+    A8 = fmts["a8"]
+    X888 = fmts["x8r8g8b8"]
+    combos = {"none": [(A8, None, A8, 0), (A8888, None, A8888, 0), (A8888, None, X888, 0)],
+              "unified": [(A8888, A8, A8, 5), (A8888, A8, A8888, 0), (X888, A8, A8888, 5)],
+              "ca": [(A8888, A8888, A8888, 0), (A8888, A8888, A8888, 5)]}
+    for op in (3, 5, 7, 9, 11, 12, 48, 49):
+        for mode in ("none", "unified", "ca"):
+            for (fs, fm, fd, pres) in combos[mode]:
+                if pres == 5:
+                    # a solid source shows one value to the whole row: one short row per sensitive (source, mask) pair
+                    if op not in (3, 5, 12):
+                        continue
+                    for i in range(0, len(tuples), 3):
+                        t = tuples[i]
+                        row = [t] + [dict(tuples[(i + 7 * j) % len(tuples)], s=t["s"]) for j in range(1, 4)]
+                        out.append(build_row(dict(op=op, mode=mode, fam="residue", row=row), fs, fm, fd, 5, 0, rng, "residue"))
+                    continue
+                for grp in chunks(tuples, 17):
+                    out.append(build_row(dict(op=op, mode=mode, fam="residue", row=grp), fs, fm, fd, pres, 0, rng, "residue"))
+
     # ---- solid-fill images (pixman_image_create_solid_fill) as source and as mask, with 16-bit channels that are
     #      not replications of 8-bit values: the 8-bit pipeline sees the high bytes, the float pipeline the true
     #      values (alpha 0xff00..0xfffe is NOT opaque); bright destinations make a lost (1 - sa) d term visible
@@ -1040,6 +1091,7 @@ def run_c01(args):
     chk.extra["rows_by_presentation"] = {str(p): sum(1 for c in cases if c["pres"] == p) for p in range(8)}
     chk.extra["rows_with_solid_mask"] = sum(1 for c in cases if c["mpres"] == 1)
     chk.extra["rows_aimed_at_fast_paths"] = sum(1 for c in cases if c["origin"] == "fastpath")
+    chk.extra["rows_rounding_residue_suite"] = sum(1 for c in cases if c["origin"] == "residue")
     chk.extra["rows_with_solid_fill_source_or_mask_16bit"] = sum(1 for c in cases if c["origin"] == "solid16")
     chk.extra["rows_chained_on_previous_destination"] = sum(1 for c in cases if c["origin"] == "chain")
     chk.extra["rows_wide_pipeline_with_mask_and_transformed_source"] = sum(
@@ -1055,7 +1107,7 @@ def run_c01(args):
     traces = run_driver(exe, lines, wd, "def", nb)
     traces_g = run_driver(exe, lines, wd, "gen", nb, env_extra=GENERAL_ONLY)
     # the portable C fast paths are shadowed by the SIMD ones in the default chain: run them on their own
-    cfast = [c for c in cases if c["origin"] in ("fastpath", "solid16") or args.tier != "quick"]
+    cfast = [c for c in cases if c["origin"] in ("fastpath", "solid16", "residue") or args.tier != "quick"]
     traces_c = run_driver(exe, script_units(cfast), wd, "cfp", nb, env_extra=C_FAST_PATHS)
     chk.evaluations = 2 * npx + sum(c["w"] for c in cfast)
 
